@@ -315,11 +315,18 @@ theorem slice_from (B txt rest : List Nat) :
     slice (B ++ (txt ++ rest)) B.length (B ++ txt).length = .ok txt := by
   rw [List.length_append]; exact slice_mid B txt rest
 
-def Seg.pathOk : Seg → Prop
+/-- the paths of the `{var:}` operands the scanner finds in an expression text (followed by its
+terminator `t`) have the documented shape -/
+def varsOk (rn : List Nat → Option (Num R)) (e : List Nat) (t : Nat) : Prop :=
+  ∀ items : List (Item R),
+    Qentem.Expr.parseTop ({ readNum := rn } : ScanCfg R) (e ++ [t]) 0 e.length = .ok items →
+    ∀ v ∈ itemsVars items, PathOk (((e ++ [t]).drop v.off).take v.len)
+
+def Seg.pathOk (rn : List Nat → Option (Num R)) : Seg → Prop
   | .text _ => True
   | .var p => PathOk p
   | .raw p => PathOk p
-  | .math _ => True
+  | .math e => varsOk rn e 125
 
 section
 variable [RealLike R]
@@ -401,8 +408,8 @@ theorem renderRawVariable_seg (cx : RCtx R) (hg : cx.guardIndexRead = true) (st 
 /-! ### `{math:e}` -/
 
 theorem vars_reloc {k n : Nat} : ∀ m,
-    (∀ (a b : List (Item R)), Qentem.Expr.sizeItems a ≤ m → Qentem.Expr.RelItems k n a b → itemsVars b = []) ∧
-    (∀ (x y : Qentem.Expr.Operand R), x.size ≤ m → Qentem.Expr.RelOperand k n x y → operandVars y = []) := by
+    (∀ (a b : List (Item R)), Qentem.Expr.sizeItems a ≤ m → Qentem.Expr.RelItems Qentem.Expr.NoV k n a b → itemsVars b = []) ∧
+    (∀ (x y : Qentem.Expr.Operand R), x.size ≤ m → Qentem.Expr.RelOperand Qentem.Expr.NoV k n x y → operandVars y = []) := by
   intro m
   induction m with
   | zero =>
@@ -415,6 +422,7 @@ theorem vars_reloc {k n : Nat} : ∀ m,
       cases hxy with
       | num _ => rfl
       | text _ _ _ => rfl
+      | var _ _ h => exact h.elim
       | sub a b _ => simp [Qentem.Expr.Operand.size] at hs
   | succ m ih =>
     refine ⟨?_, ?_⟩
@@ -429,10 +437,192 @@ theorem vars_reloc {k n : Nat} : ∀ m,
       cases hxy with
       | num _ => rfl
       | text _ _ _ => rfl
+      | var _ _ h => exact h.elim
       | sub a b hab =>
         simp only [Qentem.Expr.Operand.size] at hs
         simp only [operandVars]
         exact ih.1 a b (by omega) hab
+
+/-- related lists: every related pair of variable operands occurs in the two lists -/
+theorem rel_mem {Pv : VarRef → VarRef → Prop} {k n : Nat} : ∀ m,
+    (∀ (a b : List (Item R)) (Q : VarRef → VarRef → Prop), Qentem.Expr.sizeItems a ≤ m →
+      Qentem.Expr.RelItems Pv k n a b →
+      (∀ v v', Pv v v' → v ∈ itemsVars a → v' ∈ itemsVars b → Q v v') → Qentem.Expr.RelItems Q k n a b) ∧
+    (∀ (x y : Qentem.Expr.Operand R) (Q : VarRef → VarRef → Prop), x.size ≤ m →
+      Qentem.Expr.RelOperand Pv k n x y →
+      (∀ v v', Pv v v' → v ∈ operandVars x → v' ∈ operandVars y → Q v v') → Qentem.Expr.RelOperand Q k n x y) := by
+  intro m
+  induction m with
+  | zero =>
+    refine ⟨?_, ?_⟩
+    · intro a b Q hs hab hq
+      cases hab with
+      | nil => exact .nil
+      | cons x y o a b _ _ => simp [Qentem.Expr.sizeItems] at hs
+    · intro x y Q hs hxy hq
+      cases hxy with
+      | num z => exact .num z
+      | text o l h => exact .text o l h
+      | var v v' h => exact .var v v' (hq v v' h (by simp [operandVars]) (by simp [operandVars]))
+      | sub a b _ => simp [Qentem.Expr.Operand.size] at hs
+  | succ m ih =>
+    refine ⟨?_, ?_⟩
+    · intro a b Q hs hab hq
+      cases hab with
+      | nil => exact .nil
+      | cons x y o a b hxy hab =>
+        simp only [Qentem.Expr.sizeItems] at hs
+        refine .cons _ _ _ _ _ (ih.2 x y Q (by omega) hxy ?_) (ih.1 a b Q (by omega) hab ?_)
+        · intro v v' h h1 h2
+          exact hq v v' h (by simp only [itemsVars]; exact List.mem_append_left _ h1)
+            (by simp only [itemsVars]; exact List.mem_append_left _ h2)
+        · intro v v' h h1 h2
+          exact hq v v' h (by simp only [itemsVars]; exact List.mem_append_right _ h1)
+            (by simp only [itemsVars]; exact List.mem_append_right _ h2)
+    · intro x y Q hs hxy hq
+      cases hxy with
+      | num z => exact .num z
+      | text o l h => exact .text o l h
+      | var v v' h => exact .var v v' (hq v v' h (by simp [operandVars]) (by simp [operandVars]))
+      | sub a b hab =>
+        simp only [Qentem.Expr.Operand.size] at hs
+        exact .sub _ _ (ih.1 a b Q (by omega) hab (fun v v' h h1 h2 =>
+          hq v v' h (by simpa only [operandVars] using h1) (by simpa only [operandVars] using h2)))
+
+theorem resolveVars_ok (cx : RCtx R) (st : RState) (g : VarRef → Option Doc) :
+    ∀ (vs : List VarRef), (∀ v ∈ vs, getValue cx st v = .ok (g v)) →
+      resolveVars cx st vs = .ok (vs.map (fun v => (v, (g v).map (docToVarVal cx)))) := by
+  intro vs
+  induction vs with
+  | nil => intro _; rfl
+  | cons v rest ih =>
+    intro h
+    simp only [resolveVars, h v (List.mem_cons_self), bind, Except.bind,
+      ih (fun w hw => h w (List.mem_cons_of_mem _ hw)), List.map_cons]
+
+theorem find_resolved (f : VarRef → Option (Qentem.Expr.VarVal R)) : ∀ (vs : List VarRef) (v : VarRef), v ∈ vs →
+    ((vs.map (fun w => (w, f w))).find? (fun p => p.1 == v)).bind (·.2) = f v := by
+  intro vs
+  induction vs with
+  | nil => intro v hv; cases hv
+  | cons w rest ih =>
+    intro v hv
+    simp only [List.map_cons, List.find?_cons]
+    by_cases hwv : w = v
+    · subst hwv; simp
+    · have : (w == v) = false := by simpa using hwv
+      simp only [this]
+      rcases List.mem_cons.mp hv with h | h
+      · exact absurd h.symm hwv
+      · exact ih v h
+
+theorem docToVarVal_eq (cx : RCtx R) (d : Doc) : docToVarVal cx d = docVarVal (specOf cx) d := by
+  cases d <;> rfl
+
+theorem rel_vars_back {Pv : VarRef → VarRef → Prop} {k n : Nat} : ∀ m,
+    (∀ (a b : List (Item R)), Qentem.Expr.sizeItems a ≤ m → Qentem.Expr.RelItems Pv k n a b →
+      ∀ v' ∈ itemsVars b, ∃ v, v ∈ itemsVars a ∧ Pv v v') ∧
+    (∀ (x y : Qentem.Expr.Operand R), x.size ≤ m → Qentem.Expr.RelOperand Pv k n x y →
+      ∀ v' ∈ operandVars y, ∃ v, v ∈ operandVars x ∧ Pv v v') := by
+  intro m
+  induction m with
+  | zero =>
+    refine ⟨?_, ?_⟩
+    · intro a b hs hab
+      cases hab with
+      | nil => intro v' hv'; simp [itemsVars] at hv'
+      | cons x y o a b _ _ => simp [Qentem.Expr.sizeItems] at hs
+    · intro x y hs hxy
+      cases hxy with
+      | num z => intro v' hv'; simp [operandVars] at hv'
+      | text o l h => intro v' hv'; simp [operandVars] at hv'
+      | var v w h =>
+        intro v' hv'
+        simp only [operandVars, List.mem_singleton] at hv'
+        subst hv'
+        exact ⟨v, by simp [operandVars], h⟩
+      | sub a b _ => simp [Qentem.Expr.Operand.size] at hs
+  | succ m ih =>
+    refine ⟨?_, ?_⟩
+    · intro a b hs hab
+      cases hab with
+      | nil => intro v' hv'; simp [itemsVars] at hv'
+      | cons x y o a b hxy hab =>
+        simp only [Qentem.Expr.sizeItems] at hs
+        intro v' hv'
+        simp only [itemsVars, List.mem_append] at hv' ⊢
+        rcases hv' with h | h
+        · obtain ⟨v, h1, h2⟩ := ih.2 x y (by omega) hxy v' h
+          exact ⟨v, Or.inl h1, h2⟩
+        · obtain ⟨v, h1, h2⟩ := ih.1 a b (by omega) hab v' h
+          exact ⟨v, Or.inr h1, h2⟩
+    · intro x y hs hxy
+      cases hxy with
+      | num z => intro v' hv'; simp [operandVars] at hv'
+      | text o l h => intro v' hv'; simp [operandVars] at hv'
+      | var v w h =>
+        intro v' hv'
+        simp only [operandVars, List.mem_singleton] at hv'
+        subst hv'
+        exact ⟨v, by simp [operandVars], h⟩
+      | sub a b hab =>
+        simp only [Qentem.Expr.Operand.size] at hs
+        intro v' hv'
+        simp only [operandVars] at hv' ⊢
+        exact ih.1 a b (by omega) hab v' hv'
+
+/-- the code's evaluation of a list scanned in place equals the evaluation of the list scanned
+alone in the reference environment, when the paths of its `{var:}` operands have the documented
+shape -/
+theorem evalExprs_reloc (cx : RCtx R) (hg : cx.guardIndexRead = true) (st : RState) (envS : Env R) (k : Nat)
+    (items0 items' : List (Item R))
+    (hre : ∀ lk, Qentem.Expr.RelEnv envS ({ content := cx.content, lookup := lk, readNum := cx.readNum } : Env R) k)
+    (hlookS : ∀ v, envS.lookup v =
+      ((resolve cx.root [] ((envS.content.drop v.off).take v.len)).1).map (docVarVal (specOf cx)))
+    (hrel : Qentem.Expr.RelItems (PvTop k envS.content.length) k envS.content.length items0 items')
+    (hpath : ∀ v ∈ itemsVars items0, PathOk ((envS.content.drop v.off).take v.len))
+    (hlen : k + envS.content.length ≤ cx.content.length) (hne : items'.isEmpty = false) :
+    evalExprs cx st items' = .ok (Qentem.Expr.evaluateTop envS true items0) ∧
+      (∀ v, Qentem.Expr.evaluateTop envS true items0 = some v → ∃ x, v = .num x) := by
+  let g : VarRef → Option Doc := fun v' => (resolve cx.root [] ((cx.content.drop v'.off).take v'.len)).1
+  have hsl : ∀ v : VarRef, v.off + v.len < envS.content.length →
+      (cx.content.drop (k + v.off)).take v.len = (envS.content.drop v.off).take v.len :=
+    fun v hb => (hre (fun _ => none)).slice v.off v.len (by omega)
+  have hget : ∀ v' ∈ itemsVars items', getValue cx st v' = .ok (g v') := by
+    intro v' hv'
+    obtain ⟨v, hv, hpv, hb⟩ := (rel_vars_back _).1 items0 items' (Nat.le_refl _) hrel v' hv'
+    subst hpv
+    have hp := hpath v hv
+    have hs := hsl v hb
+    have hlp : ((envS.content.drop v.off).take v.len).length = v.len := by
+      simp only [List.length_take, List.length_drop]; omega
+    have hc' : cx.content = cx.content.take (k + v.off) ++
+        ((envS.content.drop v.off).take v.len ++ (cx.content.drop (k + v.off)).drop v.len) := by
+      rw [← hs, List.take_append_drop, List.take_append_drop]
+    have hla : (cx.content.take (k + v.off)).length = k + v.off := by
+      simp only [List.length_take]; omega
+    have := getValue_path cx hg st _ _ _ hc' hp
+    rw [hla, hlp] at this
+    rw [this]
+    simp only [g, hs]
+  let f : VarRef → Option (Qentem.Expr.VarVal R) := fun v => (g v).map (docToVarVal cx)
+  have hres := resolveVars_ok cx st g (itemsVars items') hget
+  let env' : Env R := ⟨cx.content,
+    fun v => (((itemsVars items').map (fun w => (w, f w))).find? (fun p => p.1 == v)).bind (·.2), cx.readNum⟩
+  have hrel2 := (rel_mem _).1 items0 items'
+    (fun v v' => PvTop k envS.content.length v v' ∧ v' ∈ itemsVars items') (Nat.le_refl _) hrel
+    (fun v v' h _ h2 => ⟨h, h2⟩)
+  have hlk : Qentem.Expr.RelLookup (fun v v' => PvTop k envS.content.length v v' ∧ v' ∈ itemsVars items') envS env' := by
+    intro v v' ⟨⟨hpv, hb⟩, hm⟩
+    show (((itemsVars items').map (fun w => (w, f w))).find? (fun p => p.1 == v')).bind (·.2) = envS.lookup v
+    rw [find_resolved f _ v' hm, hlookS v]
+    subst hpv
+    simp only [f, g, hsl v hb]
+    congr 1
+  have hev := Qentem.Expr.evaluateTop_reloc (hre env'.lookup) hlk true items0 items' hrel2
+  refine ⟨?_, hev.2⟩
+  simp only [evalExprs, hne, Bool.false_eq_true, if_false, hres, bind, Except.bind]
+  exact congrArg Except.ok hev.1
 
 /-- the text of a `{math:e}` tag inside the content, as a relocation of `e}` -/
 theorem reloc_math (c pre e post : List Nat)
@@ -468,17 +658,18 @@ theorem evalText_eq (cx : RCtx R) (e : List Nat) (items0 : List (Item R))
     · simp only [List.isEmpty_cons, Bool.false_eq_true, if_false]
       exact (Qentem.Expr.evaluateTop_eq_tree _ _ h).symm
 
-theorem renderMath_seg (cx : RCtx R) (cfg : ScanCfg R) (hrn : cfg.readNum = cx.readNum) (st : RState)
+theorem renderMath_seg (cx : RCtx R) (cfg : ScanCfg R) (hg : cx.guardIndexRead = true)
+    (hrn : cfg.readNum = cx.readNum) (st : RState)
     (B txt e post : List Nat)
     (hc : cx.content = B ++ (txt ++ (([123, 109, 97, 116, 104, 58] ++ e ++ [125]) ++ post)))
-    (hp : plainL e) (hsc : Seg.scanOk cfg.readNum (.math e)) :
+    (hp : varsOk cfg.readNum e 125) (hsc : Seg.scanOk cfg.readNum (.math e)) :
     renderMath cx st (itemsAt cfg cx.content ((B ++ txt).length + 6) ((B ++ txt).length + 6 + e.length))
         (B ++ txt).length ((B ++ txt).length + 6 + e.length + 1) B.length =
       .ok (emit (emit st txt) (expSeg cx (.math e)), (B ++ txt).length + 6 + e.length + 1) := by
   obtain ⟨items0, hitems0⟩ := hsc
   have hc2 : cx.content = (B ++ txt) ++ (([123, 109, 97, 116, 104, 58] ++ e ++ [125]) ++ post) := by
     rw [hc]; simp [List.append_assoc]
-  obtain ⟨items', hex, hrel⟩ := exprs_math cfg cx.content (B ++ txt) e post hc2 hp items0 hitems0
+  obtain ⟨items', hex, hrel⟩ := exprs_math cfg cx.content (B ++ txt) e post hc2 items0 hitems0
   have hreloc := reloc_math cx.content (B ++ txt) e post hc2
   have hsl : slice cx.content B.length (B ++ txt).length = .ok txt := by rw [hc]; exact slice_from B txt _
   have hsrc : slice cx.content (B ++ txt).length ((B ++ txt).length + 6 + e.length + 1) =
@@ -490,6 +681,7 @@ theorem renderMath_seg (cx : RCtx R) (cfg : ScanCfg R) (hrn : cfg.readNum = cx.r
   have hitems : itemsAt cfg cx.content ((B ++ txt).length + 6) ((B ++ txt).length + 6 + e.length) = items' := by
     simp only [itemsAt, hex]
   rw [hitems]
+  have hp' : varsOk cx.readNum e 125 := hrn ▸ hp
   rw [hrn] at hitems0
   have hspec := evalText_eq cx e items0 hitems0
   have hemp := hrel.isEmpty
@@ -502,18 +694,18 @@ theorem renderMath_seg (cx : RCtx R) (cfg : ScanCfg R) (hrn : cfg.readNum = cx.r
   | false =>
     rw [hi] at hemp
     simp only [hi, Bool.false_eq_true, if_false] at hspec
-    have hvars : itemsVars items' = [] := (vars_reloc _).1 _ _ (Nat.le_refl _) hrel
     have hre : ∀ lk, Qentem.Expr.RelEnv (specEnv cx e)
         ({ content := cx.content, lookup := lk, readNum := cx.readNum } : Env R) ((B ++ txt).length + 6) :=
       fun lk => ⟨rfl, hreloc.slice⟩
     have hlen : (specEnv cx e).content.length = e.length + 1 := by simp [specEnv]
-    have hev := fun lk => Qentem.Expr.evaluateTop_reloc (hre lk) true items0 items' (by rw [hlen]; exact hrel)
-    simp only [renderMath, hsl, evalExprs, ← hemp, Bool.false_eq_true, if_false, hvars, resolveVars, bind,
-      Except.bind, expSeg, hspec, (hev _).1]
+    have hev := evalExprs_reloc cx hg (emit st txt) (specEnv cx e) ((B ++ txt).length + 6) items0 items' hre
+      (fun _ => rfl) (by rw [hlen]; exact hrel) (hp' items0 hitems0)
+      (by rw [hlen, hc2]; simp only [List.length_append, List.length_cons, List.length_nil]; omega) hemp.symm
+    simp only [renderMath, hsl, hev.1, bind, Except.bind, expSeg, hspec]
     cases hv : Qentem.Expr.evaluateTop (specEnv cx e) true items0 with
     | none => simp only [hsrc, Option.bind]
     | some v =>
-      obtain ⟨z, hz⟩ := (hev (fun _ => none)).2 v hv
+      obtain ⟨z, hz⟩ := hev.2 v hv
       subst hz
       cases z <;> simp [Option.bind, numText, specOf]
 
@@ -521,7 +713,7 @@ theorem renderMath_seg (cx : RCtx R) (cfg : ScanCfg R) (hrn : cfg.readNum = cx.r
 theorem render_segs_aux (cx : RCtx R) (cfg : ScanCfg R) (hg : cx.guardIndexRead = true)
     (hrn : cfg.readNum = cx.readNum) :
     ∀ (segs : List Seg) (B txt : List Nat) (st : RState) (fuel : Nat),
-      cx.content = B ++ (txt ++ printSegs segs) → (∀ s ∈ segs, s.pathOk) → (∀ s ∈ segs, s.ok) →
+      cx.content = B ++ (txt ++ printSegs segs) → (∀ s ∈ segs, s.pathOk cfg.readNum) → (∀ s ∈ segs, s.ok) →
       (∀ s ∈ segs, s.scanOk cfg.readNum) → nTags segs + 2 ≤ fuel →
       render cx fuel (tagsOf cfg cx.content (B ++ txt).length segs) B.length cx.content.length st =
         .ok (emit st (txt ++ expSegs cx segs)) := by
@@ -539,7 +731,7 @@ theorem render_segs_aux (cx : RCtx R) (cfg : ScanCfg R) (hg : cx.guardIndexRead 
       simp [render, tagsOf, this, bind, Except.bind, expSegs]
   | cons sg rest ih =>
     intro B txt st fuel hc hok hpl hsc hf
-    have hokr : ∀ s ∈ rest, s.pathOk := fun s hs => hok s (List.mem_cons_of_mem _ hs)
+    have hokr : ∀ s ∈ rest, s.pathOk cfg.readNum := fun s hs => hok s (List.mem_cons_of_mem _ hs)
     have hplr : ∀ s ∈ rest, s.ok := fun s hs => hpl s (List.mem_cons_of_mem _ hs)
     have hscr : ∀ s ∈ rest, s.scanOk cfg.readNum := fun s hs => hsc s (List.mem_cons_of_mem _ hs)
     have hsg := hok sg (List.mem_cons_self ..)
@@ -591,8 +783,8 @@ theorem render_segs_aux (cx : RCtx R) (cfg : ScanCfg R) (hg : cx.guardIndexRead 
         cases f with
         | zero => simp [nTags] at hf
         | succ g =>
-          have hv := renderMath_seg cx cfg hrn st B txt e (printSegs rest)
-            (by rw [hc]; simp [printSegs, printSeg]) (hpl _ (List.mem_cons_self ..)) (hsc _ (List.mem_cons_self ..))
+          have hv := renderMath_seg cx cfg hg hrn st B txt e (printSegs rest)
+            (by rw [hc]; simp [printSegs, printSeg]) (hok _ (List.mem_cons_self ..)) (hsc _ (List.mem_cons_self ..))
           simp only [tagsOf, render, renderTag, hv, bind, Except.bind]
           have := ih (B ++ txt ++ printSeg (.math e)) [] (emit (emit st txt) (expSeg cx (.math e))) (g + 1)
             (by rw [hc]; simp [printSegs, printSeg]) hokr hplr hscr (by simp only [nTags] at hf; omega)
@@ -605,7 +797,7 @@ theorem render_segs_aux (cx : RCtx R) (cfg : ScanCfg R) (hg : cx.guardIndexRead 
 /-- rendering the implied tags over the printed text prints the documented expansion -/
 theorem render_segs (cx : RCtx R) (cfg : ScanCfg R) (hg : cx.guardIndexRead = true)
     (hrn : cfg.readNum = cx.readNum) (segs : List Seg)
-    (hc : cx.content = printSegs segs) (hok : ∀ s ∈ segs, s.pathOk) (hpl : ∀ s ∈ segs, s.ok)
+    (hc : cx.content = printSegs segs) (hok : ∀ s ∈ segs, s.pathOk cfg.readNum) (hpl : ∀ s ∈ segs, s.ok)
     (hsc : ∀ s ∈ segs, s.scanOk cfg.readNum) (fuel : Nat) (hf : nTags segs + 2 ≤ fuel) :
     renderTop cx (tagsOf cfg cx.content 0 segs) fuel = .ok (expSegs cx segs) := by
   have := render_segs_aux cx cfg hg hrn segs [] [] {} fuel (by simpa using hc) hok hpl hsc hf
